@@ -34,6 +34,7 @@ var checks = map[string]func(prop, tier string) int{
 	"C10": fieldchk.Main,
 	"C12": phchk.Main,
 	"C13": matchchk.MainC13,
+	"C14": livechk.MainC14,
 	"C16": httpchk.Main,
 	"C17": optchk.Main,
 	"C18": histchk.Main,
